@@ -544,6 +544,7 @@ func runC10(c *kit.Ctx) {
 		multiDecodesEveryResult(c)
 		serialisingDoesNotChangeTheCall(c)
 		accumulatorIsHandedBack(c)
+		sendPathSharesNoMemory(c)
 		noResponseBufferRecycling(c)
 	}
 
@@ -795,6 +796,7 @@ func runC10(c *kit.Ctx) {
 	c.StartRule("R4", "field widths and fixed header layout agree between writer and reader", 10)
 	guardsAreTight(c, bounds.New(p), []*ssa.Function{p.Func("hrpc", "", "cellFromCellBlock")})
 	decompressorRejectsOnlyMalformed(c)
+	narrowLengthFieldsAreNotRangeRestricted(c)
 	// writer: no narrowing-then-widening conversion feeds a fixed-width write
 	var wOff []int64
 	var wWid []int
